@@ -45,7 +45,8 @@ Kinds == {"ct", "rt", "rm", "otp", "rc", "sc", "os", "tt", "ts"}
 InitState(dbInit) ==
   [now |-> 0, db |-> dbInit, rm |-> {},
    sess |-> [b \in Browsers |-> EmptySess], cookie |-> [b \in Browsers |-> 0],
-   iss |-> [k \in Kinds |-> 0]]
+   iss |-> [k \in Kinds |-> 0],
+   scPhone |-> {}]       \* ghost: <<sms code id, phone id it was sent to>>
 
 \* a step/event record: every field always present
 E0 == [act |-> "none", b |-> NONE, pid |-> NONE, pw |-> 0, tok |-> 0, rm |-> FALSE,
@@ -69,14 +70,15 @@ Locked(u, now) == u.lockedUntil >= now
 (* Handler context: the working copy a request operates on *)
 
 Ctx0(S, b) ==
-  [db |-> S.db, rm |-> S.rm, iss |-> S.iss, now |-> S.now, b |-> b,
+  [db |-> S.db, rm |-> S.rm, iss |-> S.iss, now |-> S.now, b |-> b, scPhone |-> S.scPhone,
    rs |-> S.sess[b],      \* session as read at request start (stable reads)
    rc |-> S.cookie[b],    \* cookie as read at request start
    ps |-> S.sess[b],      \* session with queued changes applied
    pc |-> S.cookie[b],    \* cookie with queued changes applied
    cu |-> NONE,           \* pid placed in the request context
    class |-> "none", loc |-> NONE, ran |-> FALSE, seenUser |-> NONE, seenKeys |-> {},
-   mails |-> {}, sms |-> {}, shown |-> {}, err |-> FALSE]
+   mails |-> {}, sms |-> {}, shown |-> {}, err |-> FALSE,
+   pendLast |-> NEVER]    \* TOTP last-code carried by the in-memory user (not yet saved)
 
 Fresh(h, k)  == h.iss[k] + 1
 Bump(h, k)   == [h EXCEPT !.iss[k] = @ + 1]
@@ -168,7 +170,8 @@ SmsSend(h, phone) ==
   THEN [h |-> h, limited |-> TRUE]
   ELSE LET t  == Fresh(h, "sc")
            h1 == PutS(PutS(Bump(h, "sc"), "smsLast", h.now), "smsCode", t)
-       IN  [h |-> [h1 EXCEPT !.sms = @ \cup {[phone |-> phone, code |-> t]}], limited |-> FALSE]
+       IN  [h |-> [h1 EXCEPT !.sms = @ \cup {[phone |-> phone, code |-> t]},
+                             !.scPhone = @ \cup {<<t, phone>>}], limited |-> FALSE]
 
 SmsHijack(h, u) ==
   IF h.db[u].sms = 0 THEN HR(h, FALSE)
@@ -271,20 +274,248 @@ RecoverEnd(h, c, e) ==
                 THEN LoginTail(h2, c, u, FALSE, FALSE, "recoverOK")
                 ELSE Redirect(h2, "recoverOK")
 
+
+-----------------------------------------------------------------------------
+(* authboss.Middleware2 as mounted in front of the otp / 2FA routes and the  *)
+(* probe route                                                               *)
+
+Refuse(h, c) ==
+  Respond(h, CASE c.mwFail = "404" -> "refuse404"
+               [] c.mwFail = "401" -> "refuse401"
+               [] OTHER -> "refuseLogin", NONE)
+
+\* [ok, uid]: the wrapped handler runs iff ok
+AuthMW(h, needFull, need2fa) ==
+  LET uid == CurrentUserID(h) IN
+  IF (needFull /\ h.rs.half) \/ (need2fa /\ h.rs.twofa = NONE) THEN [ok |-> FALSE, uid |-> NONE]
+  ELSE IF uid = NONE \/ uid \notin Pids \/ ~h.db[uid].ex THEN [ok |-> FALSE, uid |-> NONE]
+  ELSE [ok |-> TRUE, uid |-> uid]
+
+\* twofactor.EmailVerify.Wrap
+EmailWrapBlocks(h, c) == c.emailAuth /\ ~h.rs.tfaAuthed
+
+(* otp module *)
+
+OtpLoginPost(h, c, e) ==
+  IF ~Has(c, "otp") THEN RouteMissing(h)
+  ELSE IF e.pid \notin Pids \/ ~h.db[e.pid].ex THEN Page(h, "otpLogin")
+  ELSE LET u == e.pid IN
+       IF e.tok <= 0 \/ e.tok \notin h.db[u].otps
+       THEN LET f == AfterAuthFail(h, c, u) IN
+            IF f.handled THEN f.h ELSE Page(f.h, "otpLogin")
+       ELSE LET h1 == [h EXCEPT !.db[u].otps = @ \ {e.tok}]     \* consumed and saved first
+            IN  LoginTail(h1, c, u, e.rm, TRUE, IF e.redir # NONE THEN "redir" ELSE "loginOK")
+
+OtpAdd(h, c, e) ==
+  IF ~Has(c, "otp") THEN RouteMissing(h)
+  ELSE LET m == AuthMW(h, FALSE, FALSE) IN
+       IF ~m.ok THEN Refuse(h, c)
+       ELSE IF Cardinality(h.db[m.uid].otps) >= 5 THEN Page(h, "otpAdd")
+       ELSE LET t == Fresh(h, "otp") IN
+            Page([Bump(h, "otp") EXCEPT !.db[m.uid].otps = @ \cup {t}, !.shown = {<<"otp", t>>}], "otpAdd")
+
+OtpClear(h, c, e) ==
+  IF ~Has(c, "otp") THEN RouteMissing(h)
+  ELSE LET m == AuthMW(h, FALSE, FALSE) IN
+       IF ~m.ok THEN Refuse(h, c)
+       ELSE Page([h EXCEPT !.db[m.uid].otps = {}], "otpAdd")
+
+(* oauth2 module *)
+
+OProviders == {"pa", "pb"}
+OPid(prov, uid) == "o_" \o prov \o "_" \o uid
+
+OAuthStart(h, c, e) ==
+  IF ~Has(c, "oauth2") \/ e.prov \notin OProviders THEN RouteMissing(h)
+  ELSE LET t  == Fresh(h, "os")
+           h1 == PutS(Bump(h, "os"), "oState", t)
+           hasQ == e.rm \/ e.redir # NONE
+           h2 == [h1 EXCEPT !.ps.oHas = hasQ, !.ps.oRm = hasQ /\ e.rm,
+                            !.ps.oRedir = IF hasQ THEN e.redir ELSE NONE]
+       IN  Redirect(h2, "provider")
+
+OAuthCallback(h, c, e) ==
+  IF ~Has(c, "oauth2") \/ e.prov \notin OProviders THEN RouteMissing(h)
+  ELSE IF h.rs.oState = 0 THEN Fail(h)
+  ELSE IF e.tok <= 0 \/ e.tok # h.rs.oState THEN Fail(h)
+  ELSE LET h1 == [h EXCEPT !.ps.oState = 0, !.ps.oHas = FALSE, !.ps.oRm = FALSE, !.ps.oRedir = NONE] IN
+       IF e.outcome = "error" THEN Redirect(h1, "oauth2NotOK")
+       ELSE IF e.outcome = "exchangeFail" THEN Fail(h1)
+       ELSE LET u  == OPid(e.prov, e.outcome)
+                h2 == IF h1.db[u].ex THEN h1
+                      ELSE [h1 EXCEPT !.db[u] = [NoUser EXCEPT !.ex = TRUE, !.conf = TRUE]]
+                a  == IF Has(c, "lock") THEN LockUpdate(h2, c, u, TRUE) ELSE HR(h2, FALSE)
+            IN  IF a.handled THEN a.h
+                ELSE LET h3 == DelS(PutS(a.h, "uid", u), "half")
+                         h4 == IF Has(c, "remember") /\ h.rs.oHas /\ h.rs.oRm THEN RememberAdd(h3, u) ELSE h3
+                     IN  Redirect(h4, IF h.rs.oHas /\ h.rs.oRedir # NONE THEN "redir" ELSE "oauth2OK")
+
+(* two-factor: shared pieces *)
+
+NewRecoveryCodes(h, u) ==
+  LET g == Fresh(h, "rc") IN
+  [Bump(h, "rc") EXCEPT !.db[u].rcg = g, !.db[u].rcLeft = 1..10, !.shown = @ \cup {<<"rc", g>>}]
+
+RcMatches(h, u, e) == e.rc >= 1 /\ e.g = h.db[u].rcg /\ e.rc \in h.db[u].rcLeft
+
+\* the user a validate-style handler acts for: the logged-in one, else the pending one
+ValidateUser(h, pend) ==
+  LET cur == CurrentUserID(h) IN
+  IF cur # NONE /\ cur \in Pids /\ h.db[cur].ex THEN cur
+  ELSE IF pend # NONE /\ pend \in Pids /\ h.db[pend].ex THEN pend
+  ELSE NONE
+
+TotpEnc(e) == IF e.code >= 1 /\ e.tok >= 1 THEN e.tok * 10 + e.code ELSE IF e.code = 0 THEN 0 ELSE -1
+
+\* totp2fa.validate: [h, status] with status in "notEnabled" | "bad" | "ok"
+TotpCheck(h, c, u, e) ==
+  IF h.db[u].totp = 0 THEN [h |-> h, status |-> "notEnabled"]
+  ELSE IF e.rc # 0 THEN
+         IF RcMatches(h, u, e)
+         THEN [h |-> [h EXCEPT !.db[u].rcLeft = @ \ {e.rc}], status |-> "ok"]   \* saved at once
+         ELSE [h |-> h, status |-> "bad"]
+  ELSE LET enc == TotpEnc(e)
+           rep == c.totpOneTime /\ enc = h.db[u].totpLast
+           \* the in-memory user carries the new last code; it reaches storage
+           \* with whichever Save follows (lock's, the handler's)
+           hm  == IF c.totpOneTime /\ ~rep THEN [h EXCEPT !.pendLast = enc] ELSE h
+       IN  IF rep THEN [h |-> h, status |-> "bad"]
+           ELSE IF e.code >= 1 /\ e.tok = h.db[u].totp THEN [h |-> hm, status |-> "ok"]
+           ELSE [h |-> hm, status |-> "bad"]
+
+SaveLast(h, u) == IF h.pendLast # NEVER THEN [h EXCEPT !.db[u].totpLast = h.pendLast] ELSE h
+
+\* completing the second step of a login
+TwoFALogin(h, c, u, kind, e) ==
+  LET a == BeforeAuth(h, c, u) IN
+  IF a.handled THEN a.h
+  ELSE LET h1 == PutS(PutS(a.h, "uid", u), "twofa", kind)
+           h2 == DelS(h1, "half")
+           h3 == IF kind = "totp" THEN DelS(DelS(h2, "totpPend"), "totpSetup")
+                 ELSE DelS(DelS(h2, "smsPend"), "smsCode")
+           h4 == AfterAuth(h3, c, u, FALSE)
+       IN  Redirect(h4, IF e.redir # NONE THEN "redir" ELSE "loginOK")
+
+(* totp *)
+
+TotpSetup(h, c, e) ==
+  IF ~Has(c, "totp") THEN RouteMissing(h)
+  ELSE LET m == AuthMW(h, TRUE, FALSE) IN
+       IF ~m.ok THEN Refuse(h, c)
+       ELSE IF EmailWrapBlocks(h, c) THEN Redirect(h, "totpEmailVerify")
+       ELSE IF e.act = "TotpSetupGet" THEN Page(DelS(h, "totpSetup"), "totpSetup")
+       ELSE LET t == Fresh(h, "ts") IN Redirect(PutS(Bump(h, "ts"), "totpSetup", t), "totpConfirm")
+
+TotpConfirm(h, c, e) ==
+  IF ~Has(c, "totp") THEN RouteMissing(h)
+  ELSE LET m == AuthMW(h, TRUE, FALSE) IN
+       IF ~m.ok THEN Refuse(h, c)
+       ELSE IF EmailWrapBlocks(h, c) THEN Redirect(h, "totpEmailVerify")
+       ELSE IF h.rs.totpSetup = 0 THEN Fail(h)
+       ELSE IF ~(e.code >= 1 /\ e.tok = h.rs.totpSetup) THEN Page(h, "totpConfirm")
+       ELSE LET u  == m.uid
+                h1 == NewRecoveryCodes(h, u)
+                h2 == [h1 EXCEPT !.db[u].totp = h.rs.totpSetup,
+                                 !.db[u].totpLast = IF c.totpOneTime THEN TotpEnc(e) ELSE @]
+            IN  Page(DelS(DelS(h2, "totpSetup"), "tfaAuthed"), "totpConfirmOK")
+
+TotpRemove(h, c, e) ==
+  IF ~Has(c, "totp") THEN RouteMissing(h)
+  ELSE LET m == AuthMW(h, TRUE, FALSE) IN
+       IF ~m.ok THEN Refuse(h, c)
+       ELSE LET u == m.uid
+                v == TotpCheck(h, c, u, e)
+            IN  IF v.status # "ok" THEN Page(v.h, "totpRemove")
+                ELSE Page([SaveLast(DelS(v.h, "twofa"), u) EXCEPT !.db[u].totp = 0], "totpRemoveOK")
+
+TotpValidate(h, c, e) ==
+  IF ~Has(c, "totp") THEN RouteMissing(h)
+  ELSE LET u == ValidateUser(h, h.rs.totpPend) IN
+       IF u = NONE THEN Fail(h)
+       ELSE LET v == TotpCheck(h, c, u, e) IN
+            IF v.status = "notEnabled" THEN Page(v.h, "totpValidate")
+            ELSE IF v.status = "bad"
+            THEN LET f == AfterAuthFail(v.h, c, u)
+                     \* lock saves the very user object validate() mutated
+                     hf == IF Has(c, "lock") THEN SaveLast(f.h, u) ELSE f.h
+                 IN  IF f.handled THEN hf ELSE Page(hf, "totpValidate")
+            ELSE TwoFALogin(SaveLast(v.h, u), c, u, "totp", e)
+
+(* sms *)
+
+SmsSetup(h, c, e) ==
+  IF ~Has(c, "sms") THEN RouteMissing(h)
+  ELSE LET m == AuthMW(h, TRUE, FALSE) IN
+       IF ~m.ok THEN Refuse(h, c)
+       ELSE IF EmailWrapBlocks(h, c) THEN Redirect(h, "smsEmailVerify")
+       ELSE IF e.act = "SmsSetupGet" THEN Page(DelS(DelS(h, "smsCode"), "smsNum"), "smsSetup")
+       ELSE IF e.phone <= 0 THEN Page(h, "smsSetup")
+       ELSE LET s == SmsSend(PutS(h, "smsNum", e.phone), e.phone) IN
+            IF s.limited THEN Fail(s.h) ELSE Redirect(s.h, "smsConfirm")
+
+\* which: "confirm" | "remove" | "validate"
+SmsPost(h, c, e, which) ==
+  IF ~Has(c, "sms") THEN RouteMissing(h)
+  ELSE LET m == IF which = "validate" THEN [ok |-> TRUE, uid |-> NONE] ELSE AuthMW(h, TRUE, FALSE) IN
+       IF ~m.ok THEN Refuse(h, c)
+       ELSE IF which = "confirm" /\ EmailWrapBlocks(h, c) THEN Redirect(h, "smsEmailVerify")
+       ELSE LET u == ValidateUser(h, h.rs.smsPend)
+                page == CASE which = "confirm" -> "smsConfirm" [] which = "remove" -> "smsRemove" [] OTHER -> "smsValidate"
+                rcGiven == which # "confirm" /\ e.rc # 0
+            IN
+            IF u = NONE THEN Fail(h)
+            ELSE IF ~rcGiven /\ e.code = 0 THEN
+                   \* (re)send a code
+                   LET phone == IF which = "confirm" THEN h.rs.smsNum ELSE h.db[u].sms IN
+                   IF phone = 0 THEN Fail(h)
+                   ELSE Page(SmsSend(h, phone).h, page)
+            ELSE IF ~rcGiven /\ h.rs.smsCode = 0 THEN Fail(h)
+            ELSE LET target == IF which = "confirm" THEN h.rs.smsNum ELSE h.db[u].sms
+                     verified == IF rcGiven THEN RcMatches(h, u, e)
+                                 ELSE e.code >= 1 /\ e.code = h.rs.smsCode
+                                      /\ <<e.code, target>> \in h.scPhone   \* sent to the factor being proven
+                     h1 == IF rcGiven /\ verified THEN [h EXCEPT !.db[u].rcLeft = @ \ {e.rc}] ELSE h
+                 IN
+                 IF ~verified
+                 THEN LET f == AfterAuthFail(h1, c, u) IN IF f.handled THEN f.h ELSE Page(f.h, page)
+                 ELSE CASE which = "confirm" ->
+                             IF h.rs.smsNum = 0 THEN Fail(h1)
+                             ELSE LET h2 == [NewRecoveryCodes(h1, u) EXCEPT !.db[u].sms = h.rs.smsNum]
+                                  IN  Page(DelS(DelS(DelS(h2, "tfaAuthed"), "smsCode"), "smsNum"), "smsConfirmOK")
+                        [] which = "remove" ->
+                             Page(DelS([h1 EXCEPT !.db[u].sms = 0], "twofa"), "smsRemoveOK")
+                        [] OTHER -> TwoFALogin(h1, c, u, "sms", e)
+
+(* recovery codes, e-mail verification *)
+
+RecoveryRegen(h, c, e) ==
+  IF ~Has(c, "recovery") THEN RouteMissing(h)
+  ELSE LET m == AuthMW(h, TRUE, FALSE) IN
+       IF ~m.ok THEN Refuse(h, c) ELSE Page(NewRecoveryCodes(h, m.uid), "recovery2fa")
+
+EmailVerifyStart(h, c, e) ==
+  IF ~c.emailAuth \/ ~Has(c, e.kind) \/ e.kind \notin {"totp", "sms"} THEN RouteMissing(h)
+  ELSE LET m == AuthMW(h, TRUE, FALSE) IN
+       IF ~m.ok THEN Refuse(h, c)
+       ELSE LET t == Fresh(h, "tt")
+                h1 == PutS(Bump(h, "tt"), "tfaTok", t)
+            IN  Redirect([h1 EXCEPT !.mails = @ \cup {[to |-> m.uid, kind |-> "tfaverify", tok |-> t]}], "tfaEmailNotOK")
+
+EmailVerifyEnd(h, c, e) ==
+  IF ~c.emailAuth \/ ~Has(c, e.kind) \/ e.kind \notin {"totp", "sms"} THEN RouteMissing(h)
+  ELSE LET m == AuthMW(h, TRUE, FALSE) IN
+       IF ~m.ok THEN Refuse(h, c)
+       ELSE IF h.rs.tfaTok = 0 \/ e.tok <= 0 \/ e.tok # h.rs.tfaTok THEN Redirect(h, "tfaEmailNotOK")
+       ELSE Redirect(PutS(DelS(h, "tfaTok"), "tfaAuthed", TRUE), IF e.kind = "totp" THEN "totpSetup" ELSE "smsSetup")
+
 \* application route behind authboss.Middleware2 -> lock.Middleware -> confirm.Middleware
 Probe(h, c, e) ==
-  LET needFull == c.mwReqs \in {1, 3}
-      need2fa  == c.mwReqs \in {2, 3}
-      refuse   == Respond(h, CASE c.mwFail = "404" -> "refuse404"
-                                [] c.mwFail = "401" -> "refuse401"
-                                [] OTHER -> "refuseLogin", NONE)
-      uid      == CurrentUserID(h)
-  IN  IF (needFull /\ h.rs.half) \/ (need2fa /\ h.rs.twofa = NONE) THEN refuse
-      ELSE IF uid = NONE \/ uid \notin Pids \/ ~h.db[uid].ex THEN refuse
-      ELSE IF Has(c, "lock") /\ Locked(h.db[uid], h.now) THEN Redirect(h, "lockNotOK")
-      ELSE IF Has(c, "confirm") /\ ~h.db[uid].conf THEN Redirect(h, "confirmNotOK")
-      ELSE [Respond(h, "ok", NONE) EXCEPT !.ran = TRUE, !.seenUser = uid,
-              !.seenKeys = {k \in SessKeys : h.rs[k] # EmptySess[k]}]
+  LET m == AuthMW(h, c.mwReqs \in {1, 3}, c.mwReqs \in {2, 3}) IN
+  IF ~m.ok THEN Refuse(h, c)
+  ELSE IF Has(c, "lock") /\ Locked(h.db[m.uid], h.now) THEN Redirect(h, "lockNotOK")
+  ELSE IF Has(c, "confirm") /\ ~h.db[m.uid].conf THEN Redirect(h, "confirmNotOK")
+  ELSE [Respond(h, "ok", NONE) EXCEPT !.ran = TRUE, !.seenUser = m.uid,
+          !.seenKeys = {k \in SessKeys \ {"oRm", "oRedir"} : h.rs[k] # EmptySess[k]}]
 
 Dispatch(h, c, e) ==
   CASE e.act = "LoginPost"    -> LoginPost(h, c, e)
@@ -294,9 +525,28 @@ Dispatch(h, c, e) ==
     [] e.act = "RecoverStart" -> RecoverStart(h, c, e)
     [] e.act = "RecoverEnd"   -> RecoverEnd(h, c, e)
     [] e.act = "Probe"        -> Probe(h, c, e)
+    [] e.act = "OtpLoginPost" -> OtpLoginPost(h, c, e)
+    [] e.act = "OtpAdd"       -> OtpAdd(h, c, e)
+    [] e.act = "OtpClear"     -> OtpClear(h, c, e)
+    [] e.act = "OAuthStart"   -> OAuthStart(h, c, e)
+    [] e.act = "OAuthCallback" -> OAuthCallback(h, c, e)
+    [] e.act \in {"TotpSetup", "TotpSetupGet"} -> TotpSetup(h, c, e)
+    [] e.act = "TotpConfirm"  -> TotpConfirm(h, c, e)
+    [] e.act = "TotpRemove"   -> TotpRemove(h, c, e)
+    [] e.act = "TotpValidate" -> TotpValidate(h, c, e)
+    [] e.act \in {"SmsSetup", "SmsSetupGet"} -> SmsSetup(h, c, e)
+    [] e.act = "SmsConfirm"   -> SmsPost(h, c, e, "confirm")
+    [] e.act = "SmsRemove"    -> SmsPost(h, c, e, "remove")
+    [] e.act = "SmsValidate"  -> SmsPost(h, c, e, "validate")
+    [] e.act = "RecoveryRegen" -> RecoveryRegen(h, c, e)
+    [] e.act = "EmailVerifyStart" -> EmailVerifyStart(h, c, e)
+    [] e.act = "EmailVerifyEnd" -> EmailVerifyEnd(h, c, e)
 
 RequestActs == {"LoginPost", "Logout", "RegisterPost", "ConfirmGet", "RecoverStart",
-                "RecoverEnd", "Probe"}
+                "RecoverEnd", "Probe", "OtpLoginPost", "OtpAdd", "OtpClear", "OAuthStart",
+                "OAuthCallback", "TotpSetup", "TotpSetupGet", "TotpConfirm", "TotpRemove",
+                "TotpValidate", "SmsSetup", "SmsSetupGet", "SmsConfirm", "SmsRemove",
+                "SmsValidate", "RecoveryRegen", "EmailVerifyStart", "EmailVerifyEnd"}
 
 \* global middleware chain in front of every route
 Prelude(S, c, b) ==
@@ -313,7 +563,7 @@ Request(S, c, e) ==
             THEN [h EXCEPT !.class = IF c.errWrites THEN "error500" ELSE "errorSilent"]
             ELSE h
       flush == hf.class # "errorSilent"
-  IN  [st |-> [S EXCEPT !.db = hf.db, !.rm = hf.rm, !.iss = hf.iss,
+  IN  [st |-> [S EXCEPT !.db = hf.db, !.rm = hf.rm, !.iss = hf.iss, !.scPhone = hf.scPhone,
                         !.sess[e.b] = IF flush THEN hf.ps ELSE @,
                         !.cookie[e.b] = IF flush THEN hf.pc ELSE @],
        resp |-> [class |-> hf.class, loc |-> hf.loc, ran |-> hf.ran,
